@@ -13,6 +13,9 @@
 //     transactions - and decides from its own model (reference checkpoint + ecrecover + archive)
 //     who may be jailed: only the validator whose registered key made the signature, and only if
 //     the checkpoint was never issued;
+//   - in a part of the histories re-activates the chains in mid-history (retried deployment of a
+//     contract that is not newer, take-over by a newer compass, re-announcement - activate.go), so
+//     that every stage of a batch's life and every replay also happens in each activation state;
 //   - submits truly bad signatures (validator key over a fabricated batch) as a control: they must
 //     jail, otherwise the "never jailed" verdicts would be vacuous (INCONCLUSIVE);
 //   - at every prune (h%50==0, age > 300) decides from the recorded evidence sets (whose
@@ -40,6 +43,9 @@ type params struct {
 	BlockSecs  int     `json:"block_secs"`  // block time is 1..BlockSecs seconds
 	LazyRemote bool    `json:"lazy_remote"` // the remote chain rarely executes batches (they time out and are re-built)
 	Calm       bool    `json:"calm"`        // no control jailings by real transactions: the snapshot keeps the composition the stake vector was made for
+	// chains are (re-)activated in mid-history: retried deployment of a contract that is not newer (new unique id announced,
+	// chain info unchanged), take-over by a newer compass (chain info moves to the new unique id), re-announcement (activate.go)
+	Activations bool `json:"activations,omitempty"`
 }
 
 // stake vectors (ugrain). Every validator is below the 25 % jailing protection unless noted;
@@ -75,6 +81,11 @@ func stakesFor(seed int64, i int) []int64 {
 	return edgeStakes(layout, a, r)
 }
 
+// Three of every eight histories re-activate their chains in mid-history (activate.go). The cycle
+// is coprime with the stake slots (7), the focus (3) and the block-time / lazy-remote cycles (5), and
+// covers histories with and without time jumps (4).
+func hasActivations(i int) bool { return i%8 == 2 || i%8 == 5 || i%8 == 7 }
+
 func cases(tier string, seed int64) []fw.Case {
 	n, blocks := 45, 450
 	if tier == "thorough" {
@@ -96,6 +107,7 @@ func cases(tier string, seed int64) []fw.Case {
 			LazyRemote: i%5 == 1 || i%5 == 3,
 		}
 		p.Calm = isEdgeSlot(seed, i)
+		p.Activations = hasActivations(i)
 		out = append(out, fw.MkCase(fmt.Sprintf("hist-%03d-%s", i, p.Focus), s, p))
 	}
 	return out
@@ -110,11 +122,15 @@ func init() {
 			"and cross-chain messages (scheduler jobs) with drawn evidence plans (none / <10% / =10% / 10-35% / ~60% / >=2/3 split / undelivered / re-delivered: error report -> attestations -> transaction report -> attestations / " +
 			"edge10: attesters chosen a few blocks before the prune from the snapshot the prune uses, so that their shares are one share below, exactly at or one share above a tenth of the total - " +
 			"two of every seven histories run on stake vectors with total 10a+r, r = 0..9, and validators of a-1, a, a+1 shares) aged until pruned. " +
+			"Three of every eight histories (re-)activate their chains 1-3 times in mid-history through EvmKeeper.ActivateChainReferenceID at block boundaries (own random stream; before / right after batch-building blocks or anywhere): " +
+			"a retried deployment of a contract that is not newer (new unique id announced, chain info unchanged), a take-over by a newer compass (chain info moves to a new unique id), a re-announcement of the current id; " +
+			"batches are built, re-estimated, confirmed, timed out, executed and their confirmations replayed in every such state. " +
 			"'evaluations' counts oracle decisions: one per bad-signature-evidence submission (fork or real tx; who may be jailed) and one per (newly jailed or attesting validator x pruned message). " +
-			"A distinct non-trivial case is a distinct (checkpoint stage, batch state at replay time, subject variant, submitter class, outcome) evidence tuple or a distinct " +
+			"A distinct non-trivial case is a distinct (checkpoint stage, batch state at replay time, subject variant, submitter class, outcome; in histories with activations also the activation state of the chain at issue and at submission time) evidence tuple or a distinct " +
 			"(evidence-share bucket, position within one share of the 10% floor and 10*attested-total, delivery kind, shares attesting before/after a re-delivery, #attesters, #jailed) prune tuple.",
 		Assumptions: []string{
 			"'issued' = BytesToSign of a batch stored in skyway state at some block boundary (what pigeons are handed for signing); every batch state change is visible at a boundary because batches are built/re-estimated only in end blockers",
+			"the compass unique id in the evm chain info changes only when ActivateChainReferenceID is called with a contract id newer than the active one (monitor's model, cross-checked against the chain info after every activation; INCONCLUSIVE on disagreement); the reference checkpoint of an evidence subject uses the id in force at submission time",
 			"genuine signatures are produced with the validators' registered keys over exactly those bytes, with the personal-message prefix pigeons use",
 			"all pigeons keep their keep-alive current, support all chains and have balances, so bad-signature evidence and message pruning are the only jailing sources in the histories; any other jailing makes the case INCONCLUSIVE",
 			"fork replays call the real MsgServiceRouter handler on a cache context (no ante); a sample of replays goes through real transactions with the full ante chain",
@@ -123,7 +139,8 @@ func init() {
 		Cases: cases,
 		Run:   run,
 		MinCounters: []string{"checkpoints_archived:built", "checkpoints_archived:re-estimated", "confirmations_archived", "replay_fork", "replay_realtx", "control_bad_sig_jailed", "prune_events", "prune_legit_jailings",
-			"prune_redelivered_evidence_before_and_after", "prune_floor_edge:one-unit-below/total%10!=0"},
+			"prune_redelivered_evidence_before_and_after", "prune_floor_edge:one-unit-below/total%10!=0",
+			"replay_tried_activation:issued-in=unique-ids-differ/signed=built", "replay_tried_activation:issued-in=newer-contract/signed=built"},
 		Workers:  16,
 		TimeoutS: 3600, // generous: the watchdog only guards against hangs (a 900-block history is ~25 s CPU)
 	})
